@@ -472,6 +472,13 @@ var operations = []opBody{
 		return ""
 	}},
 	{"bg-protection-reenable", func(a *asm) string {
+		// A timed pause that has run out; the first request afterwards
+		// starts this worker.
+		if !a.server.VerifClaimProtectionUpdate() {
+			return ""
+		}
+		past := time.Now().Add(-time.Minute)
+		a.filter.SetProtectionStatus(false, &past)
 		a.server.VerifEnableProtectionAfterPause()
 		return ""
 	}},
